@@ -1,27 +1,70 @@
-import Mochi.Lemmas.CodecRoundtrip
+import Mochi.Lemmas.PacketRoundtripSub
+import Mochi.Lemmas.PacketRoundtripConnect
 import Mochi.Lemmas.CodecNoPanic
 /-!
 # C26 — Packet codec round-trips every well-formed packet
 
 Model: `encodePacket` / `decodeBody` (packets/*.go after "fix: acknowledgement encoder keeps non-zero
-success reason codes").
+success reason codes").  Everything below is proved for **every** packet, string, list and number —
+no enumeration, no `native_decide`.
 
-Full statement (kept visible; `C26_full_statement` is a `Prop`, not yet a theorem):
-for every version, type and well-formed packet, `encodePacket` succeeds and decoding its output
-gives back the packet modulo the encoder's documented suppression.
+## What is proved
 
-Proved so far (`…_partial`): the remaining-length law for **all** packet types; the round trip of
-every codec helper at any offset; the round trip of PUBLISH for MQTT 3.1/3.1.1 and of the four
-acknowledgements for all versions (reason codes included); the property block is covered on the
-wire level by `decodePropValue`/`encodePVal` lemmas and, for the struct-level claim, by the
-correspondence run (`c.reenc`, spec verdict `Q`).
+* **The full statement** `C26_roundtrip : C26_full_statement normPacket WFPacket` — for every protocol
+  version and all fifteen packet types: a well-formed packet is encoded as header byte, variable-byte
+  remaining length and body; the header byte decodes to the packet's type and flags; the body,
+  decoded with that exact remaining length, is the packet modulo the encoder's documented suppression
+  (`normPacket`).  `C26_roundTrips` is the same with the body named (`bodyOf pk`), `C26_remaining_exact`
+  adds that `DecodeLength` on the bytes behind the header byte returns exactly the number of bytes
+  that follow, and `C26_remaining_length` (older, kept) is the length law without well-formedness.
+* **Per type** (`Lemmas/PacketRoundtrip*.lean`): `C26_connect_roundtrip` (flag byte, will block with
+  will properties, user name, password), `C26_connack_roundtrip`, `C26_publish_roundtrip` (all
+  versions, QoS 0–2, MQTT 5 property block), `C26_ack_roundtrip` (PUBACK, PUBREC, PUBREL, PUBCOMP: the
+  three wire shapes identifier / +reason code / +property block), `C26_subscribe_roundtrip` (filter
+  loop, subscription-options byte), `C26_suback_roundtrip`, `C26_unsubscribe_roundtrip`,
+  `C26_unsuback_roundtrip`, `C26_ping_roundtrip`, `C26_disconnect_roundtrip`, `C26_auth_roundtrip`, each of the
+  form `WF… pk → RoundTrips pk (…Body pk) (…Norm pk)`; `header_roundtrip` for the fixed header byte.
+* **Property block** (`Lemmas/PropsRoundtrip.lean`): `props_roundtrip` — for every packet type `pkt`,
+  `WFProps p → propsBodyLen … ≤ maxVBI → propsDecode pkt (propsEncode pkt mods n p ++ rest) =
+  .ok (normProps pkt mods n p, (propsEncode pkt mods n p).length)`; built from one lemma per property kind
+  (`decodePropValue_byte/_u16/_u32/_str/_bin/_varint/_pair`, `decodePropValue_At`), the loop lemma
+  `propsLoop_At` (order and multiplicity of repeated properties kept), `propsDecode_entries`, and the fold
+  `foldl_propsToList`.  `normProps = keepProps (propKept …)`: a field keeps its value iff the encoder's
+  `if` for its property fires (`propKept` lists the 27 conditions: type permits the property,
+  `Mods.AllowResponseInfo`, `Mods.DisallowProblemInfo`, `Mods.MaxSize`, zero/empty values, flags), else zero.
+  Small facts: `normProps_default`, `propKept_allowed`, `normProps_user`, `normProps_subIds`, `normProps_wf`,
+  `normProps_of_canonical`, `normProps_of_short`, `propsBodyLen_eq` (computable length for `decide`).
+* **Well-formedness** (`WFPacket`, decidable — `by decide` works on concrete packets): type 1–15 with
+  the flag bits MQTT prescribes; strings valid UTF-8 without NUL and shorter than 65536 bytes, binaries
+  shorter than 65536, integers within their wire width, subscription identifiers ≤ 268,435,455, user
+  properties pairs of such strings, property block not longer than 268,435,455 bytes (stated with the
+  computable `propsBodyLenC`, equal to the real length by `propsBodyLen_eq`); a non-zero
+  packet identifier where the encoder demands one (PUBLISH QoS > 0, SUBSCRIBE, UNSUBSCRIBE); QoS ≤ 2
+  and retain handling < 4 in subscription options; will QoS < 4; PINGREQ/PINGRESP: `Remaining = 0`.
+  Properties the packet type does not permit need **not** be absent: the encoder drops them and
+  `normProps` says so.
+* **Non-vacuity**: `maxPublish` (MQTT 5 PUBLISH with two user properties, two subscription identifiers,
+  multi-byte UTF-8 topic, correlation data, response topic, content type, payload format, message
+  expiry, topic alias), `fullConnect`, `fullSubscribe` are well-formed, round-trip by `C26_roundTrips`,
+  and `normPacket` changes nothing on them but the remaining length (and drops the encoder options).
+
+## What `normPacket` forgets (all of it the encoder's or the wire format's doing)
+
+encoder options `mods`; below MQTT 5: property block, reason codes of acknowledgements / UNSUBACK /
+DISCONNECT; packet identifier of a QoS 0 PUBLISH; CONNECT: reserved flag bit, will fields without the
+will flag, user name / password without their flags; UNSUBSCRIBE: everything but the filter string;
+SUBSCRIBE: below MQTT 5 everything but filter and QoS, and each filter's `identifier` is (re)set to the
+first subscription identifier of the property block; properties: see `propKept`.
+
+## Counterexample (excluded by `WFPing`)
+
+`C26_ping_remaining_counterexample`: PINGREQ/PINGRESP copy `FixedHeader.Remaining` to the wire instead of
+computing it (packets.go `PingreqEncode` is just `pk.FixedHeader.Encode(buf)`), so a ping struct with a
+stale `Remaining = 5` is encoded as `C0 05` — a length that announces bytes which do not follow.  The
+model is faithful to the Go code here; every other encoder computes the length from the body.
 -/
 namespace Mochi.Codec
 open Mochi.Varint
-
-/-- well-formedness of a string field -/
-def wfStr (s : Str) : Prop := s.length < 65536 ∧ validUTF8 s = true
-def wfBin (s : Str) : Prop := s.length < 65536
 
 /-- the full-strength statement for one packet (kept visible) -/
 def C26_full_statement (norm : Packet → Packet) (WF : Packet → Prop) : Prop :=
@@ -202,4 +245,240 @@ example : decodeBody 5 { type := 4, remaining := 3 } [0, 7, 0x10] =
   have := C26_ack_reason_partial 4 (Or.inl rfl) 0 7 0x10 (by omega)
   simpa [encodeUint16] using this
 
+/-! ## Assembly: every packet type -/
+
+/-- the body (everything behind the fixed header) the encoder writes for `pk` -/
+def bodyOf (pk : Packet) : Str :=
+  if pk.fixedHeader.type = 1 then connectBody pk
+  else if pk.fixedHeader.type = 2 then connackBody pk
+  else if pk.fixedHeader.type = 3 then publishBody pk
+  else if pk.fixedHeader.type = 4 ∨ pk.fixedHeader.type = 5 ∨ pk.fixedHeader.type = 6 ∨ pk.fixedHeader.type = 7 then
+    ackBody pk
+  else if pk.fixedHeader.type = 8 then subscribeBody pk
+  else if pk.fixedHeader.type = 9 then subackBody pk
+  else if pk.fixedHeader.type = 10 then unsubscribeBody pk
+  else if pk.fixedHeader.type = 11 then unsubackBody pk
+  else if pk.fixedHeader.type = 14 then disconnectBody pk
+  else if pk.fixedHeader.type = 15 then authBody pk
+  else []
+
+/-- **`norm`**: the packet as a decoder sees it — fixed header with the exact remaining length, the
+    fields this packet type and protocol version transmit, the property block after the encoder's
+    suppression (`normProps`), everything else (including the encoder options `mods`) at its zero value -/
+def normPacket (pk : Packet) : Packet :=
+  if pk.fixedHeader.type = 1 then connectNorm pk
+  else if pk.fixedHeader.type = 2 then connackNorm pk
+  else if pk.fixedHeader.type = 3 then publishNorm pk
+  else if pk.fixedHeader.type = 4 ∨ pk.fixedHeader.type = 5 ∨ pk.fixedHeader.type = 6 ∨ pk.fixedHeader.type = 7 then
+    ackNorm pk
+  else if pk.fixedHeader.type = 8 then subscribeNorm pk
+  else if pk.fixedHeader.type = 9 then subackNorm pk
+  else if pk.fixedHeader.type = 10 then unsubscribeNorm pk
+  else if pk.fixedHeader.type = 11 then unsubackNorm pk
+  else if pk.fixedHeader.type = 14 then disconnectNorm pk
+  else if pk.fixedHeader.type = 15 then authNorm pk
+  else basePacket pk []
+
+/-- **`WF`**: a packet type 1–15 with the flag bits MQTT prescribes, every transmitted field in range
+    for its wire representation (see the per-type `WF…` predicates) -/
+def WFPacket (pk : Packet) : Prop :=
+  if pk.fixedHeader.type = 1 then WFConnect pk
+  else if pk.fixedHeader.type = 2 then WFConnack pk
+  else if pk.fixedHeader.type = 3 then WFPublish pk
+  else if pk.fixedHeader.type = 4 ∨ pk.fixedHeader.type = 5 ∨ pk.fixedHeader.type = 6 ∨ pk.fixedHeader.type = 7 then
+    WFAck pk
+  else if pk.fixedHeader.type = 8 then WFSubscribe pk
+  else if pk.fixedHeader.type = 9 then WFSuback pk
+  else if pk.fixedHeader.type = 10 then WFUnsubscribe pk
+  else if pk.fixedHeader.type = 11 then WFUnsuback pk
+  else if pk.fixedHeader.type = 12 ∨ pk.fixedHeader.type = 13 then WFPing pk
+  else if pk.fixedHeader.type = 14 then WFDisconnect pk
+  else if pk.fixedHeader.type = 15 then WFAuth pk
+  else False
+
+theorem roundTrips_full {pk : Packet} {body : Str} {np : Packet} (h : RoundTrips pk body np) :
+    ∃ hb body, encodePacket pk = .ok (hb :: encodeLength body.length ++ body) ∧
+      (fixedHeaderDecode hb).toOption.map (fun fh => decodeBody pk.protocolVersion { fh with remaining := body.length } body)
+        = some (.ok np) := by
+  obtain ⟨h1, h2, h3⟩ := h
+  refine ⟨_, body, h1, ?_⟩
+  rw [h2]
+  simp only [Except.toOption, Option.map_some]
+  exact congrArg some h3
+
+/-- all ten groups of packet types, one statement: a well-formed packet round-trips to `normPacket` with
+    `bodyOf` as its body -/
+theorem C26_roundTrips (pk : Packet) (h : WFPacket pk) : RoundTrips pk (bodyOf pk) (normPacket pk) := by
+  unfold WFPacket at h
+  unfold bodyOf normPacket
+  split at h
+  · rename_i ht; simp only [ht, if_true]; exact C26_connect_roundtrip pk ht h
+  split at h
+  · rename_i _ ht; simp only [ht]; exact C26_connack_roundtrip pk ht h
+  split at h
+  · rename_i _ _ ht; simp only [ht]; exact C26_publish_roundtrip pk ht h
+  split at h
+  · rename_i h1 h2 h3 ht
+    have := C26_ack_roundtrip pk ht h
+    rcases ht with ht | ht | ht | ht <;> simpa [ht] using this
+  split at h
+  · rename_i _ _ _ _ ht; simp only [ht]; exact C26_subscribe_roundtrip pk ht h
+  split at h
+  · rename_i _ _ _ _ _ ht; simp only [ht]; exact C26_suback_roundtrip pk ht h
+  split at h
+  · rename_i _ _ _ _ _ _ ht; simp only [ht]; exact C26_unsubscribe_roundtrip pk ht h
+  split at h
+  · rename_i _ _ _ _ _ _ _ ht; simp only [ht]; exact C26_unsuback_roundtrip pk ht h
+  split at h
+  · rename_i _ _ _ _ _ _ _ _ ht
+    have := C26_ping_roundtrip pk ht h
+    rcases ht with ht | ht <;> simpa [ht] using this
+  split at h
+  · rename_i _ _ _ _ _ _ _ _ _ ht; simp only [ht]; exact C26_disconnect_roundtrip pk ht h
+  split at h
+  · rename_i _ _ _ _ _ _ _ _ _ _ ht; simp only [ht]; exact C26_auth_roundtrip pk ht h
+  · exact h.elim
+
+/-- **C26, full statement**: for every protocol version and every packet type, a well-formed packet is
+    encoded as header byte, exact remaining length and body; the header byte decodes to the packet's
+    type and flags; the body decodes to the packet modulo the encoder's documented suppression and
+    the defaults of untransmitted fields (`normPacket`). -/
+theorem C26_roundtrip : C26_full_statement normPacket WFPacket :=
+  fun pk h => roundTrips_full (C26_roundTrips pk h)
+
+/-- … and the remaining length the encoder wrote is exact: the variable-byte integer behind the header
+    byte decodes to the number of bytes that follow it, and those bytes are the body -/
+theorem C26_remaining_exact (pk : Packet) (h : WFPacket pk) (hlen : (bodyOf pk).length ≤ maxVBI) :
+    ∃ hb rest k, encodePacket pk = .ok (hb :: rest) ∧ decodeLength rest = .ok ((bodyOf pk).length, k) ∧
+      rest.drop k = bodyOf pk ∧ (rest.drop k).length = (bodyOf pk).length := by
+  obtain ⟨h1, _, _⟩ := C26_roundTrips pk h
+  refine ⟨_, _, _, h1, decodeLength_encode_append _ _ hlen, ?_, ?_⟩ <;> simp
+
+
+/-! ## Decidability of the well-formedness predicates (so that `by decide` checks a concrete packet) -/
+
+instance (pk : Packet) : Decidable (WFPing pk) := by unfold WFPing; infer_instance
+instance (pk : Packet) : Decidable (WFConnack pk) := by unfold WFConnack; infer_instance
+instance (pk : Packet) : Decidable (WFSuback pk) := by unfold WFSuback; infer_instance
+instance (pk : Packet) : Decidable (WFUnsuback pk) := by unfold WFUnsuback; infer_instance
+instance (pk : Packet) : Decidable (WFDisconnect pk) := by unfold WFDisconnect; infer_instance
+instance (pk : Packet) : Decidable (WFAuth pk) := by unfold WFAuth; infer_instance
+instance (pk : Packet) : Decidable (WFAck pk) := by unfold WFAck; infer_instance
+instance (pk : Packet) : Decidable (WFPublish pk) := by unfold WFPublish; infer_instance
+instance (pk : Packet) : Decidable (WFUnsubscribe pk) := by unfold WFUnsubscribe; infer_instance
+instance (pk : Packet) : Decidable (WFSubscribe pk) := by unfold WFSubscribe; infer_instance
+instance (ver : Nat) (mods : Mods) (c : ConnectParams) : Decidable (WFWill ver mods c) := by
+  unfold WFWill; infer_instance
+instance (pk : Packet) : Decidable (WFConnect pk) := by unfold WFConnect; infer_instance
+instance (pk : Packet) : Decidable (WFPacket pk) := by unfold WFPacket; infer_instance
+
+/-! ## Non-vacuity -/
+
+/-- a maximal MQTT 5 PUBLISH: topic `té/€`, QoS 1, retained, two user properties (one with a multi-byte
+    value), two subscription identifiers (one- and two-byte), correlation data, response topic, content
+    type, payload format indicator, message expiry, topic alias -/
+def maxPublish : Packet :=
+  { protocolVersion := 5, fixedHeader := { type := 3, qos := 1, retain := true },
+    mods := { allowResponseInfo := true },
+    topicName := [0x74, 0xC3, 0xA9, 0x2F, 0xE2, 0x82, 0xAC], packetID := 7, payload := [1, 2, 3],
+    properties := {
+      user := [([0x61], [0x62]), ([0x61], [0xC3, 0xA9])], subscriptionIdentifier := [5, 300],
+      correlationData := [0, 255], responseTopic := [0x72, 0x2F, 0x74], contentType := [0x63, 0x74],
+      payloadFormat := 1, payloadFormatFlag := true, messageExpiryInterval := 60, topicAlias := 3, topicAliasFlag := true } }
+
+theorem maxPublish_wf : WFPacket maxPublish := by decide
+
+/-- nothing of it is suppressed: `normPacket` only fills in the remaining length and drops the encoder options -/
+theorem maxPublish_norm : normPacket maxPublish =
+    { maxPublish with mods := {}, fixedHeader := { maxPublish.fixedHeader with remaining := (bodyOf maxPublish).length } } := by
+  have hp : normProps 3 maxPublish.mods (publishN maxPublish) maxPublish.properties = maxPublish.properties :=
+    normProps_of_canonical _ _ _ _ (by decide)
+  show publishNorm maxPublish = _
+  unfold publishNorm
+  rw [hp]
+  rfl
+
+/-- … and it round-trips **by the theorem** -/
+theorem maxPublish_roundtrips : RoundTrips maxPublish (bodyOf maxPublish)
+    { maxPublish with mods := {}, fixedHeader := { maxPublish.fixedHeader with remaining := (bodyOf maxPublish).length } } := by
+  have h := C26_roundTrips maxPublish maxPublish_wf
+  rwa [maxPublish_norm] at h
+
+example : ∃ hb body, encodePacket maxPublish = .ok (hb :: encodeLength body.length ++ body) ∧
+    (fixedHeaderDecode hb).toOption.map (fun fh => decodeBody 5 { fh with remaining := body.length } body)
+      = some (.ok (normPacket maxPublish)) := C26_roundtrip maxPublish maxPublish_wf
+
+/-- CONNECT, MQTT 5: will (QoS 1, retained, delayed, with a user property), user name, password, session expiry -/
+def fullConnect : Packet :=
+  { protocolVersion := 5, fixedHeader := { type := 1 },
+    properties := { sessionExpiryInterval := 3600, sessionExpiryIntervalFlag := true, receiveMaximum := 10,
+                    user := [([0x6B], [0x76])] },
+    connect := { protocolName := [0x4D, 0x51, 0x54, 0x54], clean := true, keepalive := 30, clientIdentifier := [0x63, 0x31],
+                 willFlag := true, willQos := 1, willRetain := true, willTopic := [0x77, 0x2F, 0x74], willPayload := [0, 1, 2],
+                 willProperties := { willDelayInterval := 5, user := [([0x61], [0x62])] },
+                 usernameFlag := true, username := [0x75], passwordFlag := true, password := [0xFF, 0x00] } }
+
+theorem fullConnect_wf : WFPacket fullConnect := by decide
+
+theorem fullConnect_norm : normPacket fullConnect =
+    { fullConnect with fixedHeader := { fullConnect.fixedHeader with remaining := (bodyOf fullConnect).length } } := by
+  have hp : normProps 1 fullConnect.mods 0 fullConnect.properties = fullConnect.properties :=
+    normProps_of_canonical _ _ _ _ (by decide)
+  have hwp : normProps tWillProperties fullConnect.mods 0 fullConnect.connect.willProperties =
+      fullConnect.connect.willProperties := normProps_of_canonical _ _ _ _ (by decide)
+  show connectNorm fullConnect = _
+  unfold connectNorm
+  simp only []
+  rw [hp, hwp]
+  rfl
+
+theorem fullConnect_roundtrips : RoundTrips fullConnect (bodyOf fullConnect)
+    { fullConnect with fixedHeader := { fullConnect.fixedHeader with remaining := (bodyOf fullConnect).length } } := by
+  have h := C26_roundTrips fullConnect fullConnect_wf
+  rwa [fullConnect_norm] at h
+
+/-- SUBSCRIBE, MQTT 5: two filters with options, a subscription identifier -/
+def fullSubscribe : Packet :=
+  { protocolVersion := 5, fixedHeader := { type := 8, qos := 1 }, packetID := 9,
+    properties := { subscriptionIdentifier := [7] },
+    filters := [{ filter := [0x61, 0x2F, 0x23], qos := 2, noLocal := true, rap := true, rh := 2, identifier := 7 },
+                { filter := [0x2B], qos := 0, identifier := 7 }] }
+
+theorem fullSubscribe_wf : WFPacket fullSubscribe := by decide
+
+theorem fullSubscribe_norm : normPacket fullSubscribe =
+    { fullSubscribe with fixedHeader := { fullSubscribe.fixedHeader with remaining := (bodyOf fullSubscribe).length } } := by
+  have hp : normProps 8 fullSubscribe.mods (2 + (subWire 5 fullSubscribe.filters).length) fullSubscribe.properties =
+      fullSubscribe.properties := normProps_of_canonical _ _ _ _ (by decide)
+  show subscribeNorm fullSubscribe = _
+  unfold subscribeNorm subscribeProps
+  simp only [show fullSubscribe.protocolVersion = 5 from rfl, beq_self_eq_true, if_true]
+  rw [hp]
+  rfl
+
+theorem fullSubscribe_roundtrips : RoundTrips fullSubscribe (bodyOf fullSubscribe)
+    { fullSubscribe with fixedHeader := { fullSubscribe.fixedHeader with remaining := (bodyOf fullSubscribe).length } } := by
+  have h := C26_roundTrips fullSubscribe fullSubscribe_wf
+  rwa [fullSubscribe_norm] at h
+
+/-- suppression is visible in `normPacket`: the same PUBLISH without `Mods.AllowResponseInfo` loses response
+    topic and correlation data — and only those -/
+example : (normProps 3 {} (publishN maxPublish) maxPublish.properties) =
+    { maxPublish.properties with responseTopic := [], correlationData := [] } := by decide
+
+/-! ## Counterexample: the excluded region of PINGREQ/PINGRESP is real -/
+
+/-- the encoder copies `FixedHeader.Remaining` to the wire instead of computing it, so a ping whose
+    struct carries a stale remaining length announces bytes that do not follow (`WFPing` excludes it) -/
+theorem C26_ping_remaining_counterexample :
+    encodePacket { fixedHeader := { type := 12, remaining := 5 } } = .ok [0xC0, 5] := by
+  simp [encodePacket, fixedHeaderEncode, encodeBool]
+  rw [encodeLength]; simp
+
 end Mochi.Codec
+
+#print axioms Mochi.Codec.C26_roundtrip
+#print axioms Mochi.Codec.C26_remaining_exact
+#print axioms Mochi.Codec.props_roundtrip
+#print axioms Mochi.Codec.maxPublish_roundtrips
+#print axioms Mochi.Codec.C26_ping_remaining_counterexample
